@@ -272,3 +272,12 @@ def run(ctx, rep):
     c02.pairing(R, r2)
     for o in r2.obligations:
         rep.ob("R5", o["instance"], o["ok"], o["detail"], o["site"], key="R5:" + o["instance"])
+    # …and rescaled exactly: an UNSPLIT divides the pooled share count by its ratio (shared with C10-R1/R2); multiplying by a
+    # rounded reciprocal leaves 99.99…9 shares where 100 are held and refuses a covered sale (seeded change C05-s4)
+    import rules.c10 as c10
+    r3 = Report("tmp")
+    h = c10.split_handler(R, r3)
+    c10.ratio_ops(R, r3, h)
+    for o in r3.obligations:
+        if o["instance"].startswith("pool handler") or "writes-only-quantity" in o["instance"]:
+            rep.ob("R5", o["instance"], o["ok"], o["detail"], o["site"], key="R5:" + o["instance"])
